@@ -72,3 +72,100 @@ def model_vs_impl(ctx, cases, results, tag, shard=400):
 def exhaustive(depth, alphabet):
     for seq in itertools.product(alphabet, repeat=depth):
         yield number_fb([list(x) for x in seq])
+
+
+ALPHA = [('FB', None), ('ST', 0), ('OZ', 0), ('MZ', 0), ('SK', 1), ('SK', 0)]
+
+
+def gen_cases(ctx, depth_exh, n_random, variants=('flat', 'perlayer', 'ghost'), accs=('rdp',), rnd_len=(6, 14)):
+    cases = []
+    for v in variants:
+        for accum in (True, False):
+            for d in range(1, depth_exh + 1):
+                for ops in exhaustive(d, ALPHA):
+                    cases.append({'variant': v, 'acc': accs[0], 'accum': accum, 'nm': 1, 'ops': ops})
+    r = ctx.rng
+    for _ in range(n_random):
+        n = r.randint(*rnd_len)
+        ops = []
+        for _ in range(n):
+            name = r.choices(['FB', 'ST', 'OZ', 'MZ', 'SK', 'NM', 'CC'], weights=[6, 6, 4, 1, 3, 1, 1])[0]
+            arg = {'FB': None, 'ST': 0, 'OZ': 0, 'MZ': 0, 'SK': r.randint(0, 1), 'NM': r.choice([1, 2, 3]), 'CC': r.choice([10, 20])}[name]
+            if name == 'FB':
+                k = r.choice([0, 1, 2, 2, 3])
+                arg = 'n%d' % k
+            ops.append([name, arg])
+        # give fresh ids
+        out, nxt = [], 0
+        for name, arg in ops:
+            if name == 'FB':
+                k = int(arg[1:])
+                out.append(['FB', list(range(nxt, nxt + k))])
+                nxt += k
+            else:
+                out.append([name, arg])
+        if nxt > 22:
+            continue
+        cases.append({'variant': r.choice(list(variants)), 'acc': r.choice(list(accs)), 'accum': r.random() < 0.7,
+                      'nm': r.choice([1, 2]), 'ops': out})
+    return cases
+
+
+def register(ctx, cases):
+    for c in cases:
+        names = [o[0] for o in c['ops']]
+        ctx.case({'v': c['variant'], 'a': c['acc'], 'm': c['accum'], 'ops': c['ops']},
+                 nontrivial=('FB' in names and 'ST' in names), kind='%s/%s/len%d' % (c['variant'], c['acc'], min(len(names), 9)))
+
+
+def oracle_release(ctx, c, r):
+    """C11 directly on the implementation: no sample id is released twice; misuse raises"""
+    if not r['decodable']:
+        ctx.fail('undecodable-release', 'a release is not a multiset of per-sample gradients (unclipped or fractional contribution)', c)
+        return
+    tot = {}
+    for o in r['obs'][:-1]:
+        for sid in o[4:]:
+            tot[sid] = tot.get(sid, 0) + 1
+    dbl = sorted(k for k, v in tot.items() if v > 1)
+    if dbl:
+        ctx.fail('double-release', 'sample id(s) %s released more than once' % dbl[:5], c)
+
+
+def oracle_accounting(ctx, c, r):
+    """C05 directly on the implementation: records == inner steps, record immediately before the inner step,
+    carrying the noise multiplier in force"""
+    n_inner = sum(o[1] for o in r['obs'][:-1])
+    n_rec = sum(h[2] for h in r['hist_raw'])
+    gdp_err = c['acc'] == 'gdp' and any(o[0] == 1 and o[2] > 0 for o in r['obs'][:-1])
+    if n_inner != n_rec and not gdp_err:
+        ctx.fail('records-vs-steps', '%d inner optimizer steps but %d recorded steps' % (n_inner, n_rec), c)
+        return
+    for (name, arg), o, ex in zip(c['ops'], r['obs'][:-1], r['extra']):
+        order = ex['order']
+        for i, ev in enumerate(order):
+            if ev == 'I' and (i == 0 or not order[i - 1].startswith('A:')):
+                ctx.fail('unaccounted-step', 'inner optimizer stepped without an immediately preceding accountant record', c)
+                return
+            if ev.startswith('A:'):
+                if i + 1 >= len(order) or order[i + 1] != 'I':
+                    ctx.fail('record-without-step', 'accountant record not followed by the inner step', c)
+                    return
+                sig = float(ev.split(':')[1])
+                if sig != ex['nm']:
+                    ctx.fail('accounted-sigma', 'recorded sigma %r, in force %r' % (sig, ex['nm']), c)
+                    return
+        if o[1] > 0:
+            for sd in ex['stds']:
+                if sd != ex['nm'] * ex['C']:
+                    ctx.fail('noise-std', 'noise std %r != sigma*C = %r' % (sd, ex['nm'] * ex['C']), c)
+                    return
+
+
+def run_impl_cases(cases, timeout=7200):
+    """run the sequences on the implementation; sequences are cut after a backward pass that raised"""
+    res = vlib.run_impl('optim_ops.py', {'cases': cases}, timeout=timeout)['results']
+    for c, r in zip(cases, res):
+        if r.get('truncated_at') is not None:
+            c['ops'] = c['ops'][:r['truncated_at']]
+    return res
